@@ -5,7 +5,11 @@
 //           batch, a custom processor with a logging recordable) and to a model span; every copy that
 //           reaches a processor's exporter is deep-copied through the SpanData getters at Export time
 //           and compared field by field with the model.  Every caller buffer is an exact-size heap
-//           block that is scribbled or freed right after the call returns.
+//           block that is scribbled or freed right after the call returns.  In a share of the cases
+//           with a batch processor and two tracers the case ends with a few more spans (of every
+//           tracer) that are NOT flushed: the application drops all span and tracer handles and
+//           destroys the provider without ForceFlush/Shutdown, so the exporter sees (and reads the
+//           resource and instrumentation scope of) those spans during the tear-down drain.
 // mode=conc (flavour tsan + perturbation shim), engine E2: 2..4 threads mutate one span while 1..2
 //           threads end it; call/return stamps from one logical clock decide which operations must be
 //           present, must be absent, or are free.
@@ -82,7 +86,9 @@ struct Env
   std::string desc;
 };
 
-static std::unique_ptr<sdktrace::SpanProcessor> make_processor(Rng &r, const std::shared_ptr<ProcState> &st)
+// patient: a batch processor that exports only when told to (ForceFlush / Shutdown / destructor), so
+// that spans ended shortly before the provider's tear-down are certainly still queued
+static std::unique_ptr<sdktrace::SpanProcessor> make_processor(Rng &r, const std::shared_ptr<ProcState> &st, bool patient = false)
 {
   switch (st->kind)
   {
@@ -96,6 +102,12 @@ static std::unique_ptr<sdktrace::SpanProcessor> make_processor(Rng &r, const std
       o.max_queue_size             = r.pick(queues);
       o.max_export_batch_size      = static_cast<size_t>(r.range(1, static_cast<int64_t>(o.max_queue_size)));
       o.schedule_delay_millis      = std::chrono::milliseconds(r.pick(delays));
+      if (patient)
+      {
+        o.max_queue_size        = 64;
+        o.max_export_batch_size = std::max<size_t>(o.max_export_batch_size, 16);
+        o.schedule_delay_millis = std::chrono::milliseconds(3600 * 1000);
+      }
       return std::unique_ptr<sdktrace::SpanProcessor>(
           new sdktrace::BatchSpanProcessor(std::unique_ptr<sdktrace::SpanExporter>(new RecExporter(st)), o));
     }
@@ -104,7 +116,7 @@ static std::unique_ptr<sdktrace::SpanProcessor> make_processor(Rng &r, const std
   }
 }
 
-static void build_env(Env &e, Rng &r, int max_procs, int ntracers)
+static void build_env(Env &e, Rng &r, int max_procs, int ntracers, bool patient_batch = false)
 {
   unsigned c = static_cast<unsigned>(r.below(100));
   int nproc  = c < 30 ? 1 : c < 65 ? 2 : c < 85 ? 3 : 4;
@@ -118,7 +130,7 @@ static void build_env(Env &e, Rng &r, int max_procs, int ntracers)
     st->kind   = static_cast<int>(r.below(3));
     st->retain = st->kind == kCustom || r.coin();
     e.any_batch |= st->kind == kBatch;
-    auto p = make_processor(r, st);
+    auto p = make_processor(r, st, patient_batch);
     // the first processor always goes through the constructor; others may be added afterwards
     if (i == 0 || r.chance(3, 4))
     {
@@ -298,11 +310,11 @@ static std::string short_items(const Items &it)
   return s + "}" + std::to_string(it.size());
 }
 
-static void start_span(Env &e, Gen &g, SpanRun &s)
+static void start_span(Env &e, Gen &g, SpanRun &s, int use_tracer = -1)
 {
   Rng &r        = g.r;
   auto &R       = vf::report();
-  s.tracer      = static_cast<int>(r.below(e.tracers.size()));
+  s.tracer      = use_tracer >= 0 ? use_tracer : static_cast<int>(r.below(e.tracers.size()));
   TracerInfo &t = e.tracers[static_cast<size_t>(s.tracer)];
   MSpan &m      = s.m;
   m.name        = g.name();
@@ -710,10 +722,13 @@ static std::string where(Env &e, size_t p, const SpanRun &s)
          "]; program: " + s.trace;
 }
 
-static void verify_span(Env &e, SpanRun &s, uint64_t *dontcare_desc)
+// at_teardown: the span was ended without a flush and the provider has been destroyed since (no
+// ForceFlush, no Shutdown): what the exporters hold now was exported at End (simple, custom) or during
+// the tear-down drain (batch).  Same oracle; a missing/duplicate copy gets its own input class.
+static void verify_span(Env &e, SpanRun &s, uint64_t *dontcare_desc, bool at_teardown = false)
 {
   auto &R = vf::report();
-  if (e.any_batch)
+  if (e.any_batch && !at_teardown)
     e.provider->ForceFlush();
   std::vector<Obs> copies;
   bool all_ok = true;
@@ -724,8 +739,11 @@ static void verify_span(Env &e, SpanRun &s, uint64_t *dontcare_desc)
     s.base.push_back(d.size());
     if (d.size() != 1)
     {
-      R.violation("notify-once", std::string(kProcName[ps.kind]) + ":" + count_class(d.size()),
-                  std::to_string(d.size()) + " notifications after End (+ForceFlush) @ " + where(e, p, s));
+      R.violation("notify-once", std::string(kProcName[ps.kind]) + ":" + count_class(d.size()) + (at_teardown ? ":provider-teardown" : ""),
+                  std::to_string(d.size()) +
+                      (at_teardown ? " notifications after End + destruction of the provider (no flush, no shutdown) @ "
+                                   : " notifications after End (+ForceFlush) @ ") +
+                      where(e, p, s));
       all_ok = false;
       if (d.empty())
         continue;
@@ -828,10 +846,15 @@ static void check_after_end(Env &e, SpanRun &s, const std::string &op)
   }
 }
 
-static void final_checks(Env &e, std::vector<SpanRun> &spans, Rng &r)
+// tail != nullptr: spans that were ended but not flushed; the pipeline is then torn down by the
+// destructors alone, with these spans still queued in the batch processor(s), and they are verified
+// afterwards
+static void final_checks(Env &e, std::vector<SpanRun> &spans, Rng &r, std::vector<SpanRun> *tail = nullptr,
+                         uint64_t *dontcare_desc = nullptr)
 {
   auto &R = vf::report();
-  e.provider->ForceFlush();
+  if (!tail)
+    e.provider->ForceFlush();
   // retained recordables must still read as they did at Export time
   for (size_t p = 0; p < e.procs.size(); ++p)
   {
@@ -858,11 +881,46 @@ static void final_checks(Env &e, std::vector<SpanRun> &spans, Rng &r)
         R.violation("after-end-ignored", "any", "recordable received " + ps.late_call_names + "after OnEnd");
     }
   }
-  // shut the pipeline down (explicitly or through the destructors), then count notifications once more
-  if (r.coin())
-    e.provider->Shutdown();
-  e.tracers.clear();
-  e.provider.reset();
+  if (tail)
+  {
+    // which copies are still queued right before the tear-down (a batch processor may have been woken early)
+    std::vector<std::vector<bool>> queued(tail->size(), std::vector<bool>(e.procs.size(), false));
+    bool any_queued = false;
+    for (size_t i = 0; i < tail->size(); ++i)
+      for (size_t p = 0; p < e.procs.size(); ++p)
+        if (e.procs[p]->kind == kBatch)
+        {
+          queued[i][p] = deliveries_of(*e.procs[p], (*tail)[i].span_id).empty();
+          any_queued |= queued[i][p];
+          R.count(queued[i][p] ? "spans_queued_at_provider_teardown" : "teardown_spans_exported_early");
+        }
+    // the application lets go of everything (all span handles are gone already) and destroys the
+    // provider: no ForceFlush, no Shutdown
+    e.tracers.clear();
+    e.provider.reset();
+    R.count("provider_teardowns");
+    if (any_queued)
+      R.count("provider_teardowns_with_queued_spans");
+    for (size_t i = 0; i < tail->size(); ++i)
+    {
+      SpanRun &s = (*tail)[i];
+      verify_span(e, s, dontcare_desc, true);
+      for (size_t p = 0; p < e.procs.size(); ++p)
+        if (queued[i][p] && !deliveries_of(*e.procs[p], s.span_id).empty())
+        {
+          R.count("spans_exported_at_provider_teardown");
+          R.count("spans_exported_at_provider_teardown_tracer" + std::to_string(s.tracer));
+        }
+    }
+  }
+  else
+  {
+    // shut the pipeline down (explicitly or through the destructors), then count notifications once more
+    if (r.coin())
+      e.provider->Shutdown();
+    e.tracers.clear();
+    e.provider.reset();
+  }
   for (size_t p = 0; p < e.procs.size(); ++p)
   {
     ProcState &ps = *e.procs[p];
@@ -886,8 +944,14 @@ static void seq_case(uint64_t seed)
 {
   auto &R = vf::report();
   Rng r(seed);
+  // tear-down with queued spans: wished for by half of the cases (own generator), possible when the case
+  // has two tracers (always different scope names, mostly different versions/schemas) and a batch processor
+  Rng tr(vf::mix(seed, vf::fnv1a("provider-teardown")));
+  const bool teardown_wish = tr.chance(1, 2);
   Env e;
-  build_env(e, r, 4, r.chance(1, 3) ? 2 : 1);
+  const int ntracers = r.chance(1, 3) ? 2 : 1;
+  build_env(e, r, 4, ntracers, teardown_wish && ntracers >= 2);
+  const bool teardown = teardown_wish && e.tracers.size() >= 2 && e.any_batch;
   Gen g(r);
   unsigned sc   = static_cast<unsigned>(r.below(10));
   size_t nspans = sc < 7 ? 1 : sc < 9 ? 2 : 3;
@@ -963,10 +1027,48 @@ static void seq_case(uint64_t seed)
       ++done;
     }
   }
+  // the last few spans of a tear-down case: at least one per tracer, ended and released, never flushed
+  std::vector<SpanRun> tail;
+  if (teardown)
+  {
+    size_t per = static_cast<size_t>(tr.range(1, 2));
+    tail.resize(per * e.tracers.size());
+    for (size_t i = 0; i < tail.size(); ++i)
+    {
+      SpanRun &s = tail[i];
+      start_span(e, g, s, static_cast<int>(i % e.tracers.size()));
+      for (int n = static_cast<int>(tr.range(0, 6)); n > 0; --n)
+        mutate(e, g, s, true);
+      unsigned em = static_cast<unsigned>(tr.below(10));
+      s.end_mode  = em < 4 ? kEndPlain : em < 8 ? kEndOptions : kEndImplicit;
+      if (s.end_mode == kEndImplicit)
+      {
+        s.m.est_lo = steady_now();
+        s.sp       = nostd::shared_ptr<trace_api::Span>();
+        s.m.est_hi = steady_now();
+        s.log("Release(implicit End)");
+      }
+      else
+      {
+        end_span(g, s, true);
+        s.sp = nostd::shared_ptr<trace_api::Span>();  // an ended span still holds its tracer
+      }
+      s.log("[queued at provider tear-down]");
+      s.state = 3;
+    }
+  }
   size_t nprocs = e.procs.size();
   bool batch    = e.any_batch;
   std::string desc = e.desc;
-  final_checks(e, spans, r);
+  if (teardown)
+  {
+    final_checks(e, spans, r, &tail, &dontcare_desc);
+    R.count("programs_provider_teardown");
+    for (auto &s : tail)
+      spans.push_back(s);  // hash / non-trivial below
+  }
+  else
+    final_checks(e, spans, r);
   R.count("programs");
   if (ops_after_end)
     R.count("programs_ops_after_end");
